@@ -122,13 +122,23 @@ func evalC17(src []byte, cfg string) (o Outcome) {
 		return
 	}
 	shape := constructTag(s1)
+	// the recorded inline-HTML findings: the formatter puts an empty `?>` statement in front of inline HTML (another
+	// structure, also for a file that is code, one close tag and HTML to the end), and HTML at the start of a file,
+	// HTML followed by more PHP or beginning with a line end comes out as text that does not parse.  For "code, one
+	// close tag, plain HTML to the end" the formatted text DOES parse on the pinned tree: a parse failure there is
+	// not the recorded finding
+	parseShape := shape
+	if shape == ":inline-html" && trailingHTMLOnly(base) {
+		parseShape = ""
+	}
 	if shape == "" {
 		shape = sourceTag(base, cfg)
+		parseShape = shape
 	}
 	// (1) preserve
 	po := parseSafe([]byte(t1), ver(a, b), true)
 	if po.Panic != "" || po.Root == nil || len(po.Errs) > 0 {
-		fail(&Failure{Site: "formatted-does-not-parse" + shape, Kind: "input", Detail: fmt.Sprintf("formatted text %q re-parses with: %s", clip(t1, 160), clip(errsStr(po.Errs)+po.Panic, 160))})
+		fail(&Failure{Site: "formatted-does-not-parse" + parseShape, Kind: "input", Detail: fmt.Sprintf("formatted text %q re-parses with: %s", clip(t1, 160), clip(errsStr(po.Errs)+po.Panic, 160))})
 		return
 	}
 	if s2 := structStr(po.Root); s2 != s1 {
@@ -172,6 +182,17 @@ func constructTag(structure string) string {
 	return ""
 }
 
+// trailingHTMLOnly: `<?php … ?>html` — code first, exactly one close tag, then HTML that neither starts with a line end
+// nor opens PHP again
+func trailingHTMLOnly(src []byte) bool {
+	s := string(src)
+	if !strings.HasPrefix(s, "<?php") || strings.Count(s, "?>") != 1 {
+		return false
+	}
+	rest := s[strings.Index(s, "?>")+2:]
+	return rest != "" && rest[0] != '\n' && rest[0] != '\r' && !strings.Contains(rest, "<?") && !strings.Contains(s, "?>\"") && !strings.Contains(s, "?>'")
+}
+
 // sourceTag: as constructTag, decided on the source text / version
 func sourceTag(src []byte, cfg string) string {
 	s := string(src)
@@ -192,6 +213,15 @@ func oracleC17() *Result {
 	var tasks []Task
 	add := func(base, variant []byte, v, tag string) {
 		tasks = append(tasks, Task{Oracle: "C17", Cfg: v, Src: append(append(append([]byte(nil), base...), 0), variant...), Tag: tag})
+	}
+	// code, one close tag, HTML to the end — after statements with empty bodies, alternative syntax, header semicolons
+	for _, st := range []string{"for ($i = 0; $i < 3; $i++): endfor", "for (;;) {}", "for ($i = 0; $i < 3; $i++) {}", "while ($a): endwhile", "while ($a) {}", "if ($a): endif", "if ($a) {} else {}",
+		"foreach ($a as $b): endforeach", "foreach ($a as $k => $v) {}", "switch ($a): endswitch", "switch ($a) {}", "declare(ticks=1): enddeclare", "echo 1", "echo 1;", "$a = 1; {}", "function f() {}", "class A {}", "try {} finally {}", "do {} while (0)"} {
+		for _, gap := range []string{" ", ""} {
+			src := []byte("<?php " + st + gap + "?>done")
+			add(src, nil, "7.4", "trailing-html")
+			add([]byte("<?php\n"+st+"\n?>done <b>x</b>"), src, "7.4", "trailing-html")
+		}
 	}
 	for _, c := range regressionInputs("C17") {
 		add(c, nil, "7.4", "regression")
